@@ -110,8 +110,11 @@ where T: Stream
     fn poll_next(self: Pin<&mut Self>, cx: &mut Context<'_>) -> Poll<Option<Self::Item>> {
         let this = self.project();
 
-        let _guard = this.span.as_ref().map(|s| s.set_local_parent());
-        let res = this.inner.poll_next(cx);
+        // Drop the guard (submitting this call's local spans) before the span may finish.
+        let res = {
+            let _guard = this.span.as_ref().map(|s| s.set_local_parent());
+            this.inner.poll_next(cx)
+        };
 
         match res {
             Poll::Pending => Poll::Pending,
@@ -151,8 +154,11 @@ where T: Sink<I>
     fn poll_close(self: Pin<&mut Self>, cx: &mut Context<'_>) -> Poll<Result<(), Self::Error>> {
         let this = self.project();
 
-        let _guard = this.span.as_ref().map(|s| s.set_local_parent());
-        let res = this.inner.poll_close(cx);
+        // Drop the guard (submitting this call's local spans) before the span may finish.
+        let res = {
+            let _guard = this.span.as_ref().map(|s| s.set_local_parent());
+            this.inner.poll_close(cx)
+        };
 
         match res {
             r @ Poll::Pending => r,
